@@ -44,7 +44,7 @@ def gen_text(ast):
 
 
 def compare(base_dump, base_gen, text, what, case):
-    out = parse_outcome(text, "f.c", ("f.c", "g.h", "dir/h.h", "a b.c"))
+    out = parse_outcome(text, "f.c", ("f.c", "g.h", "dir/h.h", "a b.c", ""))
     if out[0] != "ast":
         fail("variant", case, text, "variant (%s) of an accepted program is not accepted: %r" % (what, out[1:]), "variant-rejected")
     d = dump(out[1])
@@ -146,12 +146,21 @@ def paren_enum_shard(arg):
 
             base = unit_text(tu, "red", count)
             out = parse_outcome(base, "f.c", ("f.c",))
-            if out[0] != "ast":
-                st.classes["base_not_accepted"] += 1
-                continue
-            bd, bg = dump(out[1]), gen_text(out[1])
             k = min(npos[0], 16)
             masks = range(1, 1 << k) if k <= 5 else sorted({((i * 0x9E3779B1) >> 7) % (1 << k) or 1 for i in range(1, 33)})
+            if out[0] != "ast":
+                # the relation holds in both directions: a program that is only
+                # accepted WITH redundant parentheses differs from its plain spelling
+                # by more than coordinates
+                st.classes["base_not_accepted"] += 1
+                for pm in masks:
+                    text = unit_text(tu, "red", M.paren_from_mask(pm))
+                    st.evaluations += 1
+                    if parse_outcome(text, "f.c", ("f.c",))[0] == "ast":
+                        st.failures.append(dict(subcheck="variant", case=("parenenum", e, ci, pm, text), text=text, detail="accepted with redundant parentheses (operand subset %s) but rejected without them: %r" % (bin(pm), out[1:]), sig="plain-rejected"))
+                        break
+                continue
+            bd, bg = dump(out[1]), gen_text(out[1])
             for pm in masks:
                 text = unit_text(tu, "red", M.paren_from_mask(pm))
                 st.evaluations += 1
@@ -212,6 +221,8 @@ def replay(subcheck, case):
         base = unit_text(tu, "min")
         out = parse_outcome(base, "f.c", ("f.c",))
         if out[0] != "ast":
+            if parse_outcome(text, "f.c", ("f.c",))[0] == "ast":
+                fail("variant", case, text, "accepted with redundant parentheses but rejected without them: %r" % (out[1:],), "plain-rejected")
             return
         compare(dump(out[1]), gen_text(out[1]), text, "replay", case)
         return
